@@ -869,16 +869,15 @@ func checkC18(c *Ctx, r *Report) {
 	type need struct{ fn, field string; rel []string; why string }
 	needs := []need{
 		{"CacheConfig", "LockShards", []string{"<1=true", "<=0=true", ">=1=false", ">0=false"}, "getLock divides by len(locks); make([]RWMutex, n)"},
+		{"CacheConfig", "LockShards", []string{">MAX=true"}, "make([]sync.RWMutex, n) panics (len out of range) / exhausts memory for absurd n"},
 		{"CacheConfig", "CleanupInterval", []string{"<=0=true", "<1=true", ">0=false"}, "time.NewTicker / Ticker.Reset panic on d <= 0"},
 		{"CacheConfig", "MaxCacheSize", []string{"<=0=true", "<1=true", ">0=false"}, "limit 0 makes every store evict everything"},
 		{"CacheConfig", "MemoryBudgetPercent", []string{"<0=true"}, "memory cap arithmetic"},
 		{"CacheConfig", "MemoryBudgetPercent", []string{">100=true"}, "memory cap arithmetic"},
 		{"CacheConfig", "Dir", []string{`==""=true`}, "cache directory"},
 		{"CacheConfig", "Type", []string{"!=", "=true"}, "NewProxy refuses an unknown cache type"},
-		{"ProxyConfig", "Listen", []string{`==""=true`}, "listener"},
 		{"ProxyConfig", "CaCert", []string{`==""=true`}, "CA"},
 		{"ProxyConfig", "CaKey", []string{`==""=true`}, "CA"},
-		{"WebserverConfig", "Listen", []string{`==""=true`}, "listener"},
 		{"WebserverConfig", "ApiDisabled", []string{"=true"}, "startWebServer panics for api disabled + dashboard enabled"},
 	}
 	for _, nd := range needs {
@@ -930,10 +929,85 @@ func checkC18(c *Ctx, r *Report) {
 					if strings.HasSuffix(k, rel) {
 						ok = true
 					}
+					if rel == ">MAX=true" && strings.HasSuffix(k, "=true") {
+						// an upper bound: <field> > K with a constant K that a slice of mutexes can be made for
+						if i := strings.LastIndex(k, ">"); i > 0 {
+							var kk int64
+							if _, err := fmt.Sscanf(strings.TrimSuffix(k[i+1:], "=true"), "%d", &kk); err == nil && kk > 0 && kk <= 1<<24 {
+								ok = true
+							}
+						}
+					}
 				}
 			}
 		})
 		r.Check(ok, "C18.R2", key, c.Pos(f.Pos()), "refusal present ("+nd.why+")", "verify() accepts a "+nd.field+" the consumers cannot run with ("+nd.why+")")
+	}
+	// listen addresses are checked for what net.Listen needs (host:port, a port that exists), not only for being
+	// non-empty: "localhost" or "localhost:99999" can be saved but never started under
+	for _, who := range []string{"ProxyConfig", "WebserverConfig"} {
+		for _, f := range c.FuncsNamed("(*" + configPkg + "." + who + ").verify") {
+			okSplit, okPort := false, false
+			for _, hc := range helperContexts(f, 2) {
+				g := hc.fn
+				eachInstr(g, func(in ssa.Instruction) {
+					call, ok := in.(*ssa.Call)
+					if !ok {
+						return
+					}
+					n := calleeName(call)
+					if n != "net.SplitHostPort" && n != "net.LookupPort" && n != "strconv.ParseUint" && n != "strconv.Atoi" && n != "net.ResolveTCPAddr" {
+						return
+					}
+					// the value checked is the Listen setting
+					onListen := false
+					for _, a := range callArgs(call) {
+						derivesFromDeep(a, hc.ctx, func(v ssa.Value, cx dctx) bool {
+							if c2, ok := v.(*ssa.Call); ok && strings.HasSuffix(calleeName(c2), "config.ConfigProp).Read") {
+								if _, pth := ctxFieldPath(callArgs(c2)[0], cx); len(pth) > 0 && pth[len(pth)-1] == "Listen" {
+									onListen = true
+								}
+							}
+							return false
+						})
+					}
+					if !onListen {
+						return
+					}
+					// its failure is a refusal: on the err != nil edge every return is non-nil
+					tup, isTup := call.Type().(*types.Tuple)
+					if !isTup {
+						return
+					}
+					errv := extractOf(call, tup.Len()-1)
+					if errv == nil {
+						return
+					}
+					refuses := true
+					seen := false
+					eachInstr(g, func(i2 ssa.Instruction) {
+						if ret, ok := i2.(*ssa.Return); ok && onlyWhenNil(g, ret, errv, false) {
+							seen = true
+							vals := retVals(ret)
+							if len(vals) == 0 || isNilConst(vals[len(vals)-1]) {
+								refuses = false
+							}
+						}
+					})
+					if seen && refuses {
+						switch n {
+						case "net.SplitHostPort":
+							okSplit = true
+						case "net.ResolveTCPAddr":
+							okSplit, okPort = true, true
+						default:
+							okPort = true
+						}
+					}
+				})
+			}
+			r.Check(okSplit && okPort, "C18.R2", who+".verify rejects a listen address that cannot be listened on", c.Pos(f.Pos()), "host:port form (net.SplitHostPort) and the port (net.LookupPort / ParseUint) are checked, failures are refusals", who+".verify only checks that listen is not empty: \"localhost\" (no port) and \"localhost:99999\" are accepted and saved, and the next start dies on the listen error")
+		}
 	}
 	for _, f := range c.FuncsNamed("(*" + configPkg + ".Config).verify") {
 		for _, sub := range []string{"ProxyConfig", "WebserverConfig", "CacheConfig"} {
